@@ -2,7 +2,7 @@
 extern void *p@p@gstrf_expand(int_t *, MemType, int_t, int_t, GlobalLU_t *);
 extern ExpHeader *@p@expanders;
 _Bool nondet_bool(void);
-int g_n_malloc; size_t g_malloc_bytes; int_t g_skew;
+int g_n_malloc; size_t g_malloc_bytes; int_t g_skew, g_gap;
 extern int g_locks, g_unlocks;
 void *superlu_malloc(size_t size) { if (g_n_malloc < 1000000) g_n_malloc++; g_malloc_bytes = size; return nondet_bool() ? (void*)0 : __CPROVER_allocate(size, 0); }
 void superlu_free(void *p) { __CPROVER_assert(0, "superlu_free is not reached by a first request"); }
@@ -15,14 +15,16 @@ void h_expand_first(void) {
   g_len0 = in_len;
   g_ret = p@p@gstrf_expand(&in_len, in_type, in_len_to_copy, in_keep_prev, &in_Glu);
   __CPROVER_assert(0, "canary: expand (first request) returns");
+#if !NEARFULL
   if (g_ret && g_n_malloc == 1) {
     __CPROVER_assert(0, "canary: system request served");
     /* the store handed out is live memory of the advertised length */
     if (in_len > 0) { ((char*)g_ret)[0] = 0; ((char*)g_ret)[(size_t)in_len * ((in_type == LSUB || in_type == USUB) ? sizeof(int_t) : sizeof(@T@)) - 1] = 0; }
   }
   if (!g_ret && g_n_malloc == 1) __CPROVER_assert(0, "canary: system request fails");
+#endif
   if (g_ret && g_n_malloc == 0) __CPROVER_assert(0, "canary: user-workspace request served");
   if (g_ret && g_n_malloc == 0 && (in_type == LUSUP || in_type == UCOL) && g_ret != (void*)(in_work + g_skew) && ((g_skew) & 7) != 0) __CPROVER_assert(0, "canary: alignment fix-up taken");
   if (!g_ret && g_n_malloc == 0) __CPROVER_assert(0, "canary: user-workspace request does not fit");
-  if (!g_ret && g_n_malloc == 0 && in_exp[in_type].size == g_len0 && g_used_after != g_used_before) __CPROVER_assert(0, "canary: block fits but its alignment shift does not -> NULL");
+  if (!g_ret && g_n_malloc == 0 && g_gap > 0) __CPROVER_assert(0, "canary: block fits but its alignment shift does not -> NULL");
 }
